@@ -69,19 +69,86 @@ fn build(ctx_kind: Context, id: u64, size: u64, width: usize, payload: &[u8], ta
     Some((out, el_start))
 }
 
+/// Parse a long stream without keeping the items; returns (items, clean end, largest read() request, peak heap growth).
+fn long_stream(input: &[u8], cfg: &Cfg) -> (usize, bool, usize, usize) {
+    let m = alloc::mark();
+    let src = Script::new(input, &[]);
+    let mut it: TagIterator<Script, V> = make_iter(src, cfg);
+    let mut n = 0usize;
+    let mut clean = false;
+    for _ in 0..(2 * input.len() + 64) {
+        match crate::obs::step_next(&mut it) {
+            Ok(Some(Ok(_))) => n += 1,
+            Ok(None) => {
+                clean = true;
+                break;
+            }
+            _ => break,
+        }
+    }
+    let growth = alloc::peak_since(m);
+    (n, clean, it.get_ref().max_request, growth)
+}
+
 pub fn run(ctx: &mut Ctx) {
     alloc::REFUSE_ABOVE.store(256 << 20, std::sync::atomic::Ordering::Relaxed);
     let quick = ctx.quick();
     ctx.meta("rule", "cases: header-only streams: an element of every type (U, I, F, S, B, master, global Void, unknown id) at root, inside a small known-size master, inside a known-size master with room, inside an unknown-size master, declaring S in {0,1,M-1,M,M+1,2M,2^20,2^30,2^40,2^56-2} in every VINT width that can hold it, payload absent / 3 bytes present / followed by a 200 KB tail, x limit M in {5,16,1000,2^20,default} x capacity {16,4096,default} x 8 tolerance subsets; a counting global allocator measures peak heap growth around the whole iteration. Oracle: S > M => a CorruptedFileData error (the size error unless an earlier-ordered check fires) with nothing emitted for the element, peak growth <= growth of the same stream with S:=0 plus 4 KiB (independent of S), bytes pulled from the source <= buffer capacity + header; S <= M with the payload missing => growth <= 8*max(S,capacity)+64 KiB; never a panic. A single allocation request above 256 MiB aborts the worker and is reported. Non-trivial: S > capacity.");
     ctx.meta("bounds", "sizes, widths, limits, capacities and contexts as listed; within-limit sizes above 2^20 are not executed (they would really allocate)");
     ctx.meta("assumptions", "no buffered masters (the statement excludes them) || allocator accounting counts requested bytes, not allocator overhead");
-    for c in ["over_limit_cases", "within_limit_payload_missing", "over_limit_with_tail"] {
+    for c in ["over_limit_cases", "within_limit_payload_missing", "over_limit_with_tail", "long_streams"] {
         ctx.expect_nonzero(c);
     }
     let ids: Vec<(u64, &str)> = vec![(ID_U, "U"), (ID_I, "I"), (ID_F, "F"), (ID_S, "S"), (ID_B, "B"), (ID_M, "M(master)"), (ID_VOID, "Void"), (0xf2, "unknown-id")];
     let limits: Vec<(MaxSize, u64)> = vec![(MaxSize::Limit(5), 5), (MaxSize::Limit(16), 16), (MaxSize::Limit(1000), 1000), (MaxSize::Limit(1 << 20), 1 << 20), (MaxSize::Default, 4_000_000_000)];
     let caps: Vec<Option<usize>> = vec![Some(16), Some(4096), None];
     let contexts = [Context::Root, Context::InKnownSmall, Context::InKnownRoomy, Context::InUnknown];
+    // long streams of elements well below the limit: the buffer (observed through the largest slice offered to
+    // read()) must stay within a small multiple of max(M, capacity) however many elements go by
+    {
+        let mut streams: Vec<(String, Vec<u8>)> = Vec::new();
+        for (name, modulus, n) in [("payload sizes 1..60", 60usize, 20_000usize), ("payload sizes 17..48 (prime stride)", 32, 30_000), ("uniform 40-byte payloads", 1, 10_000)] {
+            let mut v = vec![0x81u8, 0xff];
+            for i in 0..n {
+                let len = if modulus == 1 { 40 } else if modulus == 32 { 17 + (i * 7) % 32 } else { 1 + (i * 37) % modulus };
+                v.push(0x88);
+                v.push(0x80 | len as u8);
+                v.extend(std::iter::repeat((i % 251) as u8).take(len));
+            }
+            streams.push((format!("Root(unknown)[{} x B, {}]", n, name), v));
+        }
+        let mut k = 0u64;
+        for (name, bytes) in &streams {
+            for (lim, m) in [(MaxSize::Limit(64), 64usize), (MaxSize::Limit(1000), 1000), (MaxSize::Default, 0)] {
+                for cap in [Some(16usize), Some(32), Some(100), None] {
+                    let mine = ctx.mine(k);
+                    k += 1;
+                    if !mine {
+                        continue;
+                    }
+                    let cfg = Cfg { allow: 0, buffered: vec![], cap, max_size: lim, eof_end: true };
+                    let d = || format!("long stream {} ({} bytes) {}", name, bytes.len(), cfg.short());
+                    if !ctx.enter(&d) {
+                        continue;
+                    }
+                    ctx.nontrivial();
+                    ctx.count("long_streams", 1);
+                    let (n, clean, max_req, growth) = long_stream(bytes, &cfg);
+                    ctx.transitions += n as u64 + 1;
+                    let capn = cap.unwrap_or(65536).max(16);
+                    // every element is at most 60 bytes: the buffer never has a reason to exceed max(capacity, 60)
+                    let bound = 4 * capn.max(m.min(60)).max(60);
+                    if !clean {
+                        ctx.violation("long-stream/does-not-parse-cleanly", &d, &format!("{} items", n));
+                    } else if max_req > bound {
+                        ctx.violation("long-stream/buffer-keeps-growing", &d, &format!("largest slice offered to read(): {} bytes (bound {}), peak heap growth {}", max_req, bound, growth));
+                    }
+                    ctx.validated += 1;
+                    ctx.leave();
+                }
+            }
+        }
+    }
     let mut case_no = 0u64;
     for (lim, m) in &limits {
         let mut sizes: Vec<u64> = vec![0, 1, m - 1, *m, m + 1, 2 * m, 1 << 20, 1 << 30, 1 << 40, (1 << 56) - 2];
